@@ -25,6 +25,7 @@ type Stats struct {
 	Obligations, Discharged, Inconclusive                                                                            int
 	FeasQueries, AssertQueries, UnknownBranches, SyntacticPrunes                                                     int
 	Steps                                                                                                            int
+	PathTime                                                                                                         time.Duration
 }
 
 // KnownFinding describes an already triaged defect.
@@ -146,10 +147,27 @@ func (ex *Explorer) noteRecovered(p *goPanic) {
 	ex.mu.Unlock()
 }
 
+func traceKey(trace []int, msg string) string {
+	b := make([]byte, 0, len(trace)*2+len(msg)+1)
+	for _, t := range trace {
+		b = append(b, byte(t), byte(t>>8))
+	}
+	b = append(b, '|')
+	b = append(b, msg...)
+	return string(b)
+}
+
 func (ex *Explorer) noteObligation(c *Ctx, msg, verdict string) {
+	key := traceKey(c.trace, msg)
+	if c.wdistinct[key] {
+		return
+	}
+	c.wdistinct[key] = true
+	if verdict != "sat" && len(c.wdistinct) > 64 {
+		return // samples are taken from the first obligations of each worker and from violations
+	}
 	ex.mu.Lock()
 	defer ex.mu.Unlock()
-	key := fmt.Sprint(c.trace) + "|" + msg
 	if !ex.res.Distinct[key] {
 		ex.res.Distinct[key] = true
 		if len(ex.res.Samples) < 6 || (verdict == "sat" && len(ex.res.Samples) < 12) {
@@ -286,12 +304,13 @@ func (ex *Explorer) noteKnown(kf *KnownFinding, c *Ctx, m Model) {
 	ex.res.Known[id] = &Violation{Harness: ex.harness, Key: kf.Key, Msg: kf.What, Inputs: in, Order: order, Decisions: append([]int{}, c.trace...), Count: 1, Tier: ex.Tier}
 }
 
-func (ex *Explorer) newCtx(item workItem, solver *Solver, st *Stats) *Ctx {
+func (ex *Explorer) newCtx(item workItem, solver *Solver, st *Stats, wfuncs, wdistinct map[string]bool) *Ctx {
 	return &Ctx{
-		Prog: ex.Prog, Ex: ex, IntMode: ex.IntMode, BigW: ex.BigW, S: solver, st: st, itemModel: item.model,
+		wdistinct: wdistinct,
+		Prog:      ex.Prog, Ex: ex, IntMode: ex.IntMode, BigW: ex.BigW, S: solver, st: st, itemModel: item.model,
 		prefix:  item.prefix,
 		globals: map[*ssa.Global]*Cell{}, initing: map[*ssa.Global]bool{}, initFr: map[*ssa.Package]*frame{},
-		inputs: map[string]*Term{}, choices: map[string]int{}, reached: map[string]bool{}, funcs: map[string]bool{},
+		inputs: map[string]*Term{}, choices: map[string]int{}, reached: map[string]bool{}, funcs: wfuncs,
 		onceDone: map[*Cell]bool{}, bigInputs: map[string]bool{},
 		model: Model{},
 	}
@@ -322,6 +341,8 @@ func (ex *Explorer) Run(fn *ssa.Function) *HarnessResult {
 			solver := ex.NewSolver()
 			defer solver.Close()
 			var st Stats
+			wfuncs := map[string]bool{}
+			wdistinct := map[string]bool{}
 			for {
 				ex.mu.Lock()
 				if ex.stopped {
@@ -359,14 +380,16 @@ func (ex *Explorer) Run(fn *ssa.Function) *HarnessResult {
 				if Tokens != nil {
 					Tokens <- struct{}{}
 				}
-				c := ex.newCtx(item, solver, &st)
+				c := ex.newCtx(item, solver, &st, wfuncs, wdistinct)
 				if len(item.prefix) == 0 {
 					c.model = Model{}
 				} else {
 					c.model = nil
 				}
 				st.Paths++
+				tp := time.Now()
 				ex.runPath(c, fn)
+				st.PathTime += time.Since(tp)
 				if Tokens != nil {
 					<-Tokens
 				}
@@ -375,13 +398,16 @@ func (ex *Explorer) Run(fn *ssa.Function) *HarnessResult {
 				for k := range c.reached {
 					ex.res.Reached[k] = true
 				}
-				for k := range c.funcs {
-					ex.res.Funcs[k] = true
-				}
 				ex.active--
 				ex.mu.Unlock()
 			}
 			ex.mu.Lock()
+			for k := range wfuncs {
+				ex.res.Funcs[k] = true
+			}
+			for k := range wdistinct {
+				ex.res.Distinct[k] = true
+			}
 			total.add(&st)
 			ex.res.SolverStats.add(&solver.Stats)
 			ex.res.Disagree = append(ex.res.Disagree, solver.Disagree...)
@@ -414,6 +440,7 @@ func (a *Stats) add(b *Stats) {
 	a.UnknownBranches += b.UnknownBranches
 	a.SyntacticPrunes += b.SyntacticPrunes
 	a.Steps += b.Steps
+	a.PathTime += b.PathTime
 }
 
 func (a *SolverStats) add(b *SolverStats) {
